@@ -16,7 +16,7 @@ ID = 'C15'
 LEVEL = 'exploration'
 RUNS = {'quick': 30000, 'thorough': 600000}
 CHUNK = 80
-PROBES = ['lost_record', 'repeated_request_same_object', 'frame_exactly_at_load_address', 'frame_one_below_lowest', 'frame_between_adjacent_images', 'duplicate_address_announced',
+PROBES = ['very_many_images', 'lost_record', 'repeated_request_same_object', 'frame_exactly_at_load_address', 'frame_one_below_lowest', 'frame_between_adjacent_images', 'duplicate_address_announced',
           'header_count_below_data', 'header_count_above_data', 'header_count_zero', 'sample_without_header', 'sample_without_flag',
           'launch_with_nested_maps', 'shared_cache_map', 'image_announced_inside_sample_window', 'announcement_after_sample',
           'unrelated_record_in_sample', 'several_data_records', 'via_file_api', 'out_of_order_announcements']
@@ -31,6 +31,8 @@ USTACK, THINFO = 8, 1
 
 def generate(rng, index, tier):
     nimg = rng.randint(2, 8)
+    if index % 307 == 13:
+        nimg = [130, 300, 1100, 4200][(index // 307) % 4]       # a process with very many images
     base = rng.randrange(1, 1 << 20) << 16
     addrs = []
     for _ in range(nimg):
@@ -40,7 +42,7 @@ def generate(rng, index, tier):
         elif addrs and r < 0.4:
             addrs.append(rng.pick(addrs) + rng.pick([1, 2, 0x1000]))   # adjacent
         else:
-            addrs.append(base + rng.randrange(0, 64) * 0x1000)
+            addrs.append(base + rng.randrange(0, 64 if nimg < 100 else 1 << 16) * 0x1000)
     images = [{'addr': a, 'uuid': rng.randbytes(16).hex()} for a in addrs]
     nann = rng.randint(1, 2)
     threads = []
@@ -96,7 +98,7 @@ def generate(rng, index, tier):
         for _f in range(rng.randint(1, 2)):
             faults.append({'k': 'drop', 'at': rng.randrange(max(1, total))})      # a lost record (END of a sample, a header, a map...)
     return {'threads': threads, 'schedule': sched, 'via_file': rng.chance(0.3), 't0': (rng.randrange(1, 1 << 40) << 8) | 1,
-            'tsmode': worlds.draw_tsmode(rng, ties=False), 'faults': faults, 'requests': rng.pick([1, 1, 2, 3])}
+            'tsmode': worlds.draw_tsmode(rng, ties=False), 'faults': faults, 'requests': rng.pick([1, 1, 2, 3]), 'earlier_other': rng.chance(0.2)}
 
 
 def _words_to_uuid(a):
@@ -151,10 +153,18 @@ def execute(scn):
             s = open_sample.pop(r['t'])
             s['end'] = i
             samples.append(s)
-    ann = [a for a in ann if a[1] is not None]      # shared-cache maps outside a completed launch are never announced
+    ann = [a for a in ann if a[1] is not None]
+    if len(ann) >= 128:
+        bump('probe:very_many_images')      # shared-cache maps outside a completed launch are never announced
     # --- the real pipeline
     viols = []
     hist = []
+    if scn.get('earlier_other'):
+        # the same addresses were announced (with other identities) to OTHER parser objects earlier in this process
+        edata, _ = worlds.build_file({'version': 2, 'tmap': [], 'pad': 0}, [kernel.to_bytes(r) for r in reversed(stream)])
+        common.pollute_other_objects(table, list(reversed(stream)), edata)
+        bump('fault:residue')
+        bump('earlier_other_objects')
     if scn.get('via_file'):
         bump('probe:via_file_api')
         data, _ = worlds.build_file({'version': 2, 'tmap': [], 'pad': 0}, [kernel.to_bytes(r) for r in stream])
